@@ -254,6 +254,168 @@ pub fn run_threads(index: Arc<Index>, threads: &[COp], prefix: &[usize], prefer_
     out
 }
 
+/// Gate probe for two workers `h` (holder) and `o` (other), one of which is `compact_buckets`:
+/// `h` runs `s` actions (so it is inside the gate), then `o` is released **at its `.gate` point
+/// although the gate is taken**. The mutation gate must make it wait: if `o` reaches its next
+/// yield point (or finishes) while `h` is still inside, `gate_broken` is set. Then `h` runs to its
+/// end, `o` follows. `sched` is the order in which the actions really executed.
+/// Returns `None` when `h` finishes in fewer than `s + 1` actions (nothing left to probe).
+pub fn run_probe(index: Arc<Index>, threads: &[COp], h: usize, s: usize) -> Option<(RunOutcome, bool)> {
+    install_callback();
+    assert_eq!(threads.len(), 2);
+    let o = 1 - h;
+    let (tx_ev, rx_ev) = channel::<(usize, Ev)>();
+    let mut resume: Vec<Sender<()>> = Vec::new();
+    let mut handles = Vec::new();
+    for (i, op) in threads.iter().enumerate() {
+        let (tx_r, rx_r) = channel::<()>();
+        resume.push(tx_r);
+        let tx = tx_ev.clone();
+        let op = op.clone();
+        let ix = index.clone();
+        handles.push(std::thread::spawn(move || {
+            SLOT.with(|sl| *sl.borrow_mut() = Some(Slot { ix: i, tx: tx.clone(), rx: rx_r }));
+            let r = std::panic::catch_unwind(std::panic::AssertUnwindSafe(|| op.apply(&ix))).unwrap_or_else(|_| "panic".into());
+            SLOT.with(|sl| *sl.borrow_mut() = None);
+            let _ = tx.send((i, Ev::Done(r)));
+        }));
+    }
+    let mut out = RunOutcome { index: index.clone(), sched: vec![], enabled: vec![], results: vec![String::new(); 2], tags: vec![], deadlock: None };
+    let long = Duration::from_secs(10);
+    let mut done = [false, false];
+    let mut at: [Option<&'static str>; 2] = [None, None];
+    for _ in 0..2 {
+        match rx_ev.recv_timeout(long) {
+            Ok((i, Ev::At(tag))) => at[i] = Some(tag),
+            Ok((i, Ev::Done(r))) => {
+                done[i] = true;
+                out.results[i] = r;
+            }
+            Err(_) => {
+                out.deadlock = Some("a worker did not reach its first yield point".into());
+                return Some((out, false));
+            }
+        }
+    }
+    // helper: resume `i`, wait for *its* next event
+    let step = |i: usize, out: &mut RunOutcome, done: &mut [bool; 2], at: &mut [Option<&'static str>; 2], wait: Duration| -> Result<bool, ()> {
+        let _ = resume[i].send(());
+        match rx_ev.recv_timeout(wait) {
+            Ok((j, Ev::At(tag))) => {
+                at[j] = Some(tag);
+                out.sched.push(j);
+                Ok(true)
+            }
+            Ok((j, Ev::Done(r))) => {
+                done[j] = true;
+                out.results[j] = r;
+                out.sched.push(j);
+                Ok(true)
+            }
+            Err(_) => Err(()),
+        }
+    };
+    // h runs s actions; it must still be inside afterwards
+    for _ in 0..s {
+        if done[h] {
+            break;
+        }
+        if step(h, &mut out, &mut done, &mut at, long).is_err() {
+            out.deadlock = Some("holder stuck".into());
+            return Some((out, false));
+        }
+    }
+    if done[h] || done[o] {
+        // nothing to probe at this depth: let everything finish
+        while !(done[0] && done[1]) {
+            let i = if !done[h] { h } else { o };
+            if step(i, &mut out, &mut done, &mut at, long).is_err() {
+                out.deadlock = Some("stuck".into());
+                break;
+            }
+        }
+        for hd in handles {
+            let _ = hd.join();
+        }
+        return None;
+    }
+    // release o at its gate point: it must block
+    let mut gate_broken = false;
+    match step(o, &mut out, &mut done, &mut at, Duration::from_millis(40)) {
+        Ok(_) => gate_broken = true, // it got in although h is inside
+        Err(()) => {}
+    }
+    let mut o_released_blocked = !gate_broken;
+    // h to its end
+    while !done[h] {
+        let _ = resume[h].send(());
+        match rx_ev.recv_timeout(long) {
+            Ok((j, Ev::At(tag))) => {
+                at[j] = Some(tag);
+                out.sched.push(j);
+                if j == o {
+                    // o got in while h was still inside
+                    gate_broken = true;
+                    o_released_blocked = false;
+                    // the event we are waiting for (h's) is still to come
+                    match rx_ev.recv_timeout(long) {
+                        Ok((k, Ev::At(t2))) => {
+                            at[k] = Some(t2);
+                            out.sched.push(k);
+                        }
+                        Ok((k, Ev::Done(r))) => {
+                            done[k] = true;
+                            out.results[k] = r;
+                            out.sched.push(k);
+                        }
+                        Err(_) => {
+                            out.deadlock = Some("holder stuck".into());
+                            return Some((out, gate_broken));
+                        }
+                    }
+                }
+            }
+            Ok((j, Ev::Done(r))) => {
+                done[j] = true;
+                out.results[j] = r;
+                out.sched.push(j);
+            }
+            Err(_) => {
+                out.deadlock = Some("holder stuck".into());
+                return Some((out, gate_broken));
+            }
+        }
+    }
+    // o: if it was blocked it now gets the gate and runs to its next point by itself
+    if o_released_blocked {
+        match rx_ev.recv_timeout(long) {
+            Ok((j, Ev::At(tag))) => {
+                at[j] = Some(tag);
+                out.sched.push(j);
+            }
+            Ok((j, Ev::Done(r))) => {
+                done[j] = true;
+                out.results[j] = r;
+                out.sched.push(j);
+            }
+            Err(_) => {
+                out.deadlock = Some("the waiting worker never got the gate".into());
+                return Some((out, gate_broken));
+            }
+        }
+    }
+    while !done[o] {
+        if step(o, &mut out, &mut done, &mut at, long).is_err() {
+            out.deadlock = Some("worker stuck after the gate".into());
+            return Some((out, gate_broken));
+        }
+    }
+    for hd in handles {
+        let _ = hd.join();
+    }
+    Some((out, gate_broken))
+}
+
 /// next DFS prefix after a run: backtrack to the deepest decision with an untried alternative
 /// (alternatives are tried in ascending worker order, or descending with `prefer_last`)
 pub fn next_prefix(sched: &[usize], enabled: &[Vec<usize>], prefer_last: bool) -> Option<Vec<usize>> {
